@@ -965,6 +965,12 @@ det_case(long idx)
 			hist(d, "final drain s%d (qlen %d)", i, s->qlen);
 			det_drain(d, i, "final-drain");
 		}
+		if (s->expect_async >= 0) {
+			// only after a violation: completed but never collected
+			nng_aio_wait(s->aio);
+			if (nng_aio_result(s->aio) == 0) nng_msg_free(nng_aio_get_msg(s->aio));
+			s->expect_async = -1;
+		}
 		det_cancel_pending(d, i, !s->j.is_sock);
 		nng_aio_free(s->aio);
 		s->open = false;
@@ -1516,6 +1522,11 @@ main(int argc, char **argv)
 		if (!vf_want_case(idx)) continue;
 		vf_watchdog(120);
 		fn(idx);
+		if (vf_violations() >= 6) {
+			// the verdict is settled; do not spend the run's time-out
+			// on thousands of further failing cases
+			break;
+		}
 		if ((idx & 31) == 31) {
 			// allocator balance (leaks of topics / queued messages)
 			vf_quiesce(0, 5000);
